@@ -252,6 +252,306 @@ def _command_rows(h):
     return rows
 
 
+# ---------------------------------------------------------------------------------------------------------------
+# wave 3: the glue of the built-ins typeset / export / readonly / unset (yash-builtin)
+
+def _match_arms(h, body, what):
+    """split the body of a `match` into (pattern, right-hand side) pairs, in source order"""
+    arms, i, n = [], 0, len(body)
+    while i < n:
+        while i < n and body[i] in " \t\r\n,":
+            i += 1
+        if i >= n:
+            break
+        k = body.find("=>", i)
+        if k < 0:
+            h.fail(f"variable: {what}: text after the last arm that I do not understand: {body[i:].strip()!r}")
+        pat = body[i:k].strip()
+        j = k + 2
+        while j < n and body[j] in " \t\r\n":
+            j += 1
+        if j < n and body[j] == "{":
+            depth, e = 0, j
+            while e < n:
+                if body[e] == "{":
+                    depth += 1
+                elif body[e] == "}":
+                    depth -= 1
+                    if depth == 0:
+                        break
+                e += 1
+            if e >= n:
+                h.fail(f"variable: {what}: unbalanced block in arm {pat!r}")
+            rhs, i = body[j + 1:e], e + 1
+        else:
+            depth, e = 0, j
+            while e < n:
+                c = body[e]
+                if c in "([{":
+                    depth += 1
+                elif c in ")]}":
+                    depth -= 1
+                elif c == "," and depth == 0:
+                    break
+                elif c == "'" and body[e + 2:e + 3] == "'":
+                    e += 2
+                e += 1
+            rhs, i = body[j:e], e + 1
+        arms.append((pat, rhs.strip()))
+    if not arms:
+        h.fail(f"variable: {what}: no arms found")
+    return arms
+
+
+def _typeset_options(h):
+    src = _strip_comments(h.read("yash-builtin/src/typeset/syntax.rs"))
+    specs = {}
+    for m in re.finditer(r"pub\s+const\s+(\w+)\s*:\s*OptionSpec\s*<[^>]*>\s*=\s*OptionSpec\s*\{([^}]*)\}\s*;", src):
+        fields = {}
+        for part in m.group(2).split(","):
+            part = part.strip()
+            if not part:
+                continue
+            fm = re.fullmatch(r"(\w+)\s*:\s*(.+)", part, re.S)
+            if not fm:
+                h.fail(f"variable: typeset/syntax.rs {m.group(1)}: field {part!r} not understood")
+            fields[fm.group(1)] = fm.group(2).strip()
+        if set(fields) != {"short", "long", "attr"}:
+            h.fail(f"variable: typeset/syntax.rs {m.group(1)}: fields {sorted(fields)} (expected short, long, attr)")
+        sm = re.fullmatch(r"'(\\?.)'", fields["short"])
+        if not sm:
+            h.fail(f"variable: typeset/syntax.rs {m.group(1)}: short = {fields['short']!r} is not a char literal")
+        am = re.fullmatch(r"None|Some\(\s*(?:Attr::)?(\w+)\s*\)", fields["attr"])
+        if not am:
+            h.fail(f"variable: typeset/syntax.rs {m.group(1)}: attr = {fields['attr']!r} not understood")
+        specs[m.group(1)] = (h.rust_char(sm.group(1)), am.group(1) or "")
+    lst = h.item_body(src, r"pub\s+const\s+ALL_OPTIONS\s*:[^=]*=\s*&?\s*", "typeset/syntax.rs ALL_OPTIONS")
+    names = [x.strip() for x in lst.split(",") if x.strip()]
+    for nme in names:
+        if nme not in specs:
+            h.fail(f"variable: typeset/syntax.rs ALL_OPTIONS lists {nme!r}, which is not an OptionSpec constant I could read")
+    all_opts = [specs[nme] for nme in names]
+    if len({c for c, _ in all_opts}) != len(all_opts):
+        h.fail("variable: typeset/syntax.rs ALL_OPTIONS has two options with the same short name")
+    attr_enum = _enum_variants(h, src, "Attr", "typeset/syntax.rs")
+    for _, a in all_opts:
+        if a and a not in attr_enum:
+            h.fail(f"variable: typeset/syntax.rs: Attr::{a} is not a variant of enum Attr")
+    # fn interpret: the loop over the option occurrences
+    body = h.item_body(src, r"pub\s+fn\s+interpret\s*\([^)]*\)\s*->\s*[^{]*", "typeset/syntax.rs fn interpret")
+    if not re.search(r"for\s*\(\s*index\s*,\s*option\s*\)\s+in\s+options\s*\.\s*iter\(\)\s*\.\s*enumerate\(\)", body):
+        h.fail("variable: typeset/syntax.rs interpret: `for (index, option) in options.iter().enumerate()` not found")
+    mb = h.item_body(body, r"match\s+option\s*\.\s*spec\s*\.\s*short\s*", "typeset/syntax.rs interpret: match option.spec.short")
+    arms = []
+    for pat, rhs in _match_arms(h, mb, "typeset/syntax.rs interpret: match option.spec.short"):
+        r = re.sub(r"\s+", "", rhs)
+        if re.fullmatch(r"functions_option_index=Some\(index\);?", r):
+            role = "functions"
+        elif re.fullmatch(r"global_option_index=Some\(index\);?", r):
+            role = "global"
+        elif sorted(x for x in r.split(";") if x) == ["print=true", "print_option_index=Some(index)"]:
+            role = "print"
+        else:
+            pm = re.fullmatch(r"attrs\.push\(\(index,(?:Attr::(\w+)|option\.spec\.attr\.unwrap\(\)),(!?)option\.state\)\);?", r)
+            if not pm:
+                h.fail(f"variable: typeset/syntax.rs interpret: arm {pat!r} => {rhs!r} not understood")
+            role = "push:" + (pm.group(1) or "spec") + (":negated" if pm.group(2) else ":plain")
+        for alt in pat.split("|"):
+            alt = alt.strip()
+            if alt == "_":
+                arms.append(("_", role))
+            else:
+                cm = re.fullmatch(r"'(\\?.)'", alt)
+                if not cm:
+                    h.fail(f"variable: typeset/syntax.rs interpret: pattern {alt!r} is not a char literal or `_`")
+                arms.append((h.rust_char(cm.group(1)), role))
+    if len({c for c, _ in arms}) != len(arms):
+        h.fail("variable: typeset/syntax.rs interpret: two arms for one option character")
+    if arms[-1][0] != "_" and {c for c, _ in arms} != {c for c, _ in all_opts}:
+        h.fail("variable: typeset/syntax.rs interpret: the match neither ends in `_` nor covers ALL_OPTIONS")
+    arms = sorted((a for a in arms if a[0] != "_"), key=lambda a: a[0]) + [a for a in arms if a[0] == "_"]
+    # the resolved meaning of every option of ALL_OPTIONS
+    resolved = []
+    table = dict(arms)
+    for c, attr in all_opts:
+        role = table.get(c, table.get("_"))
+        if role is None:
+            h.fail(f"variable: typeset/syntax.rs interpret: option {c!r} reaches no arm")
+        if role.startswith("push:"):
+            _, a, neg = role.split(":")
+            if a == "spec":
+                if not attr:
+                    h.fail(f"variable: typeset/syntax.rs interpret: option {c!r} has attr None but reaches `attr.unwrap()`")
+                a = attr
+            role = f"{a}:{neg}"
+        resolved.append((c, role))
+    # scope
+    sm = re.search(r"match\s+global_option_index\s*\{\s*Some\(\s*_\s*\)\s*=>\s*Scope::(\w+)\s*,\s*None\s*=>\s*Scope::(\w+)\s*,?\s*\}", body)
+    if sm:
+        with_g, without_g = sm.group(1), sm.group(2)
+    else:
+        sm = re.search(r"match\s+global_option_index\s*\{\s*None\s*=>\s*Scope::(\w+)\s*,\s*Some\(\s*_\s*\)\s*=>\s*Scope::(\w+)\s*,?\s*\}", body)
+        if sm:
+            with_g, without_g = sm.group(2), sm.group(1)
+        else:
+            sm = re.search(r"if\s+global_option_index\s*\.\s*is_some\(\)\s*\{\s*Scope::(\w+)\s*\}\s*else\s*\{\s*Scope::(\w+)\s*\}", body)
+            if not sm:
+                h.fail("variable: typeset/syntax.rs interpret: the choice of Scope from global_option_index has a shape I do not understand")
+            with_g, without_g = sm.group(1), sm.group(2)
+    if not re.search(r"let\s+sv\s*=\s*SetVariables\s*\{\s*variables\s*,\s*attrs\s*,\s*scope\s*,?\s*\}", body):
+        h.fail("variable: typeset/syntax.rs interpret: `SetVariables { variables, attrs, scope }` not found")
+    return resolved, with_g, without_g
+
+
+def _set_variables(h):
+    src = _strip_comments(h.read("yash-builtin/src/typeset/set_variables.rs"))
+    conv = h.item_body(src, r"impl\s+From\s*<\s*Scope\s*>\s+for\s+yash_env::variable::Scope\s*", "set_variables.rs impl From<Scope>")
+    cm = h.item_body(conv, r"match\s+value\s*", "set_variables.rs From<Scope>: match value")
+    smap = []
+    for pat, rhs in _match_arms(h, cm, "set_variables.rs From<Scope>"):
+        a = re.fullmatch(r"Scope::(\w+)", pat)
+        b = re.fullmatch(r"Self::(\w+)", rhs)
+        if not a or not b:
+            h.fail(f"variable: set_variables.rs From<Scope>: arm {pat!r} => {rhs!r} not understood")
+        smap.append((a.group(1), b.group(1)))
+    smap.sort()
+    body = h.item_body(src, r"pub\s+fn\s+execute\s*<[^>]*>\s*\([^)]*\)\s*->\s*[^{]*", "set_variables.rs fn execute")
+    pos = []
+    for rx, what in ((r"for\s+mut\s+field\s+in\s+self\s*\.\s*variables", "for mut field in self.variables"),
+                     (r"split_once\(\s*'='\s*\)", "field.value.split_once('=')"),
+                     (r"env\s*\.\s*get_or_create_variable\(\s*&\s*field\s*\.\s*value\s*,\s*self\s*\.\s*scope\s*\.\s*into\(\)\s*\)",
+                      "env.get_or_create_variable(&field.value, self.scope.into())"),
+                     (r"variable\s*\.\s*assign\(\s*value\s*,", "variable.assign(value, ..)"),
+                     (r"for\s*&\s*\(\s*attr\s*,\s*state\s*\)\s+in\s+&\s*self\s*\.\s*attrs", "for &(attr, state) in &self.attrs")):
+        m = re.search(rx, body)
+        if not m:
+            h.fail(f"variable: set_variables.rs execute: `{what}` not found")
+        pos.append(m.start())
+    if pos != sorted(pos):
+        h.fail("variable: set_variables.rs execute: split / get_or_create_variable / assign / attribute loop are not in that order")
+    if len(re.findall(r"get_or_create_variable\s*\(", body)) != 1:
+        h.fail("variable: set_variables.rs execute: get_or_create_variable is not called exactly once")
+    am = re.search(r"let\s+Err\(\s*error\s*\)\s*=\s*variable\s*\.\s*assign\([^;{]*\{", body)
+    if not am:
+        h.fail("variable: set_variables.rs execute: `let Err(error) = variable.assign(..) {` not found")
+    ablock = h.item_body(body[am.end() - 1:], r"", "set_variables.rs execute: body of the failed assignment")
+    if not re.search(r"errors\s*\.\s*push\(", ablock) or not re.search(r"\bcontinue\s*;", ablock):
+        h.fail("variable: set_variables.rs execute: a refused assignment does not `errors.push(..); continue;`")
+    if not re.search(r"'field\s*:\s*for\s+mut\s+field", body):
+        h.fail("variable: set_variables.rs execute: the field loop is not labelled 'field")
+    mb = h.item_body(body, r"match\s*\(\s*attr\s*,\s*state\s*\)\s*", "set_variables.rs execute: match (attr, state)")
+    arms = []
+    for pat, rhs in _match_arms(h, mb, "set_variables.rs execute: match (attr, state)"):
+        pm = re.fullmatch(r"\(\s*VariableAttr::(\w+)\s*,\s*State::(On|Off)\s*\)", pat)
+        if not pm:
+            h.fail(f"variable: set_variables.rs execute: pattern {pat!r} not understood")
+        r = re.sub(r"\s+", "", rhs)
+        kinds = []
+        if "make_read_only(" in r:
+            kinds.append("make_read_only")
+        if re.search(r"\.export\(true\)", r):
+            kinds.append("export_true")
+        if re.search(r"\.export\(false\)", r):
+            kinds.append("export_false")
+        if re.search(r"ifletSome\(\w+\)=variable\.read_only_location", r) and "errors.push(" in r and "continue'field" in r \
+                and "make_read_only(" not in r:
+            kinds.append("refuse_if_read_only")
+        if len(kinds) != 1:
+            h.fail(f"variable: set_variables.rs execute: arm {pat!r}: actions {kinds} (expected exactly one I know)")
+        arms.append((pm.group(1), pm.group(2) == "On", kinds[0]))
+    arms.sort()
+    if len({(a, s) for a, s, _ in arms}) != len(arms):
+        h.fail("variable: set_variables.rs execute: two arms for one (attr, state)")
+    return smap, arms
+
+
+def _decl_builtin(h, name):
+    src = _strip_comments(h.read(f"yash-builtin/src/{name}.rs"))
+    body = h.item_body(src, r"pub\s+async\s+fn\s+main\b[^{]*?\)\s*->\s*[^{]*", f"{name}.rs fn main")
+    m = re.search(r"Command::SetVariables\(\s*sv\s*\)\s*=>\s*", body)
+    if not m:
+        h.fail(f"variable: {name}.rs main: arm `Command::SetVariables(sv) =>` not found")
+    arm = h.item_body(body[m.end() - 1:], r"", f"{name}.rs main: SetVariables arm")
+    pushes = re.findall(r"sv\s*\.\s*attrs\s*\.\s*push\(\s*\(\s*(?:VariableAttr::)?(\w+)\s*,\s*(?:State::)?(On|Off)\s*\)\s*\)", arm)
+    scopes = re.findall(r"sv\s*\.\s*scope\s*=\s*(?:Scope::)?(\w+)\s*;", arm)
+    rest = re.sub(r"sv\s*\.\s*attrs\s*\.\s*push\([^;]*;|sv\s*\.\s*scope\s*=[^;]*;", "", arm).strip()
+    if len(pushes) != 1 or len(scopes) != 1 or rest:
+        h.fail(f"variable: {name}.rs main: SetVariables arm: pushes {pushes}, scopes {scopes}, other text {rest!r}")
+    k = body.find("command.execute(")
+    if k < 0 or k < m.start():
+        h.fail(f"variable: {name}.rs main: `command.execute(` does not follow the adjustment of the command")
+    return name, pushes[0][0], pushes[0][1] == "On", scopes[0]
+
+
+def _unset_scope(h):
+    src = _strip_comments(h.read("yash-builtin/src/unset/semantics.rs"))
+    body = h.item_body(src, r"pub\s+fn\s+unset_variables\b[^{]*?\)\s*->\s*[^{]*", "unset/semantics.rs fn unset_variables")
+    if not re.search(r"for\s+name\s+in\s+names\b", body):
+        h.fail("variable: unset/semantics.rs unset_variables: `for name in names` not found")
+    calls = re.findall(r"env\s*\.\s*variables\s*\.\s*unset\(\s*&\s*name\s*\.\s*value\s*,\s*(?:Scope::)?(\w+)\s*\)", body)
+    if len(calls) != 1 or len(re.findall(r"\.\s*unset\s*\(", body)) != 1:
+        h.fail(f"variable: unset/semantics.rs unset_variables: expected one `env.variables.unset(&name.value, SCOPE)`, found {calls}")
+    if re.search(r"\b(break|return)\b", body):
+        h.fail("variable: unset/semantics.rs unset_variables: the loop can end early (a shape I do not understand)")
+    return calls[0]
+
+
+def _builtin_types(h, names):
+    src = _strip_comments(h.read("yash-builtin/src/lib.rs"))
+    out = []
+    for nme in names:
+        ms = re.findall(r'\(\s*"' + re.escape(nme) + r'"\s*,\s*\{?\s*(?:let\s+mut\s+\w+\s*=\s*)?Builtin::new\(\s*(?:Type::)?(\w+)\s*,', src)
+        if len(ms) != 1:
+            h.fail(f"variable: yash-builtin/src/lib.rs: expected one entry (\"{nme}\", Builtin::new(TYPE, ..)), found {len(ms)}")
+        out.append((nme, ms[0]))
+    return out
+
+
+def _builtin_tables(h, scopes):
+    resolved, with_g, without_g = _typeset_options(h)
+    smap, arms = _set_variables(h)
+    decls = [_decl_builtin(h, "export"), _decl_builtin(h, "readonly")]
+    uscope = _unset_scope(h)
+    types = _builtin_types(h, [":", "export", "readonly", "set", "typeset", "unset"])
+    tscopes = [a for a, _ in smap]
+    for s_ in (with_g, without_g) + tuple(d[3] for d in decls):
+        if s_ not in tscopes:
+            h.fail(f"variable: typeset Scope::{s_} has no arm in From<Scope> of set_variables.rs")
+    for _, b_ in smap:
+        if b_ not in scopes:
+            h.fail(f"variable: set_variables.rs From<Scope> yields Scope::{b_}, not a variant of yash_env's enum Scope")
+    if uscope not in scopes:
+        h.fail(f"variable: unset_variables uses Scope::{uscope}, not a variant of enum Scope")
+    b = lambda x: "true" if x else "false"
+    out = []
+    out.append("/-- wave 3 — typeset/syntax.rs: every option of `ALL_OPTIONS` (in that order) with what the loop of "
+               "`interpret` does for an occurrence of it: `functions` / `global` / `print`, or `ATTR:plain` "
+               "(`attrs.push((ATTR, state))`) / `ATTR:negated` (`attrs.push((ATTR, !state))`); `spec.attr` resolved -/")
+    out.append("def typesetOptions : List (Char × String) := [\n" +
+               ",\n".join(f"  (Char.ofNat {ord(c)}, {_lean_str(r)})" for c, r in resolved) + "]\n")
+    out.append("/-- typeset/syntax.rs `interpret`: the typeset-level scope with and without the `global` option; "
+               "set_variables.rs `impl From<Scope>`: typeset-level scope -> `yash_env::variable::Scope` -/")
+    out.append(f"def typesetScopeWithGlobal : String := {_lean_str(with_g)}")
+    out.append(f"def typesetScopeDefault : String := {_lean_str(without_g)}")
+    out.append("def typesetScopeMap : List (String × String) := [" +
+               ", ".join(f"({_lean_str(a)}, {_lean_str(b_)})" for a, b_ in smap) + "]\n")
+    out.append("/-- set_variables.rs `SetVariables::execute`: arms of `match (attr, state)` in the attribute loop "
+               "(attr, state = On, action); the loop runs over `self.attrs` in order, after "
+               "`get_or_create_variable(name, self.scope.into())` and the assignment (a refused one skips the loop) -/")
+    out.append("def setVariablesArms : List (String × Bool × String) := [\n" +
+               ",\n".join(f"  ({_lean_str(a)}, {b(s_)}, {_lean_str(k)})" for a, s_, k in arms) + "]\n")
+    out.append("/-- export.rs / readonly.rs `main`, arm `Command::SetVariables(sv)`: "
+               "(built-in, attribute pushed, its state = On, typeset-level scope assigned to `sv.scope`) -/")
+    out.append("def declBuiltins : List (String × String × Bool × String) := [\n" +
+               ",\n".join(f"  ({_lean_str(n)}, {_lean_str(a)}, {b(s_)}, {_lean_str(sc)})" for n, a, s_, sc in decls) + "]\n")
+    out.append("/-- unset/semantics.rs `unset_variables`: `env.variables.unset(&name.value, SCOPE)` for every operand -/")
+    out.append(f"def unsetVariablesScope : String := {_lean_str(uscope)}\n")
+    out.append("/-- yash-builtin/src/lib.rs `BUILTINS`: the type of the built-ins the script leg runs -/")
+    out.append("def builtinTypes : List (String × String) := [" +
+               ", ".join(f"({_lean_str(n)}, {_lean_str(t)})" for n, t in types) + "]\n")
+    return out
+
+
 def variable_tables(h):
     consts = _constants(h)
     vsrc = h.read("yash-env/src/variable.rs")
@@ -290,6 +590,7 @@ def variable_tables(h):
                "assignments, `export` flag passed to `perform_assignments`) -/")
     out.append("def commandTable : List (String × Bool × Bool) := [\n" +
                ",\n".join(f"  ({_lean_str(n)}, {b(p)}, {b(e)})" for n, p, e in cmds) + "]\n")
+    out.extend(_builtin_tables(h, scopes))
     h.write("VariableTables", "\n".join(out))
 
 
